@@ -436,7 +436,8 @@ type run struct {
 	isAttached bool
 	xn         *xnode
 	cloud      *fakeCloud
-	harness    string       // something of the harness itself went wrong (=> driver error)
+	skip       string       // the script asks for something this way of attaching cannot do (=> unrealisable)
+	late       string       // a step of the harness's own protocol did not complete in time (=> inconclusive)
 	lagMax     atomic.Int64 // worst scheduling lag seen by the canary (ns)
 }
 
@@ -541,18 +542,25 @@ func (r *run) targetConn() (*fakeConn, stream.PackageStreamer) {
 }
 
 func (r *run) attach() {
-	switch r.b.kindOfAttach() {
-	case "pkt":
-		r.isAttached = true
-		if err := r.attachPkt(); err != nil {
-			r.harness = "pkt attach: " + err.Error()
+	if k := r.b.kindOfAttach(); k == "pkt" || k == "xnode" {
+		c, _ := r.targetConn()
+		r.w.mu.Lock()
+		dead := c.inEOF || c.failed || c.closed
+		r.w.mu.Unlock()
+		if dead {
+			r.skip = "a target connection that is gone cannot open the tunnel (" + k + ")"
+			return
 		}
-		r.awaitCopiers()
-		return
-	case "xnode":
 		r.isAttached = true
-		if err := r.attachXnode(); err != nil {
-			r.harness = "xnode attach: " + err.Error()
+		var err error
+		if k == "pkt" {
+			err = r.attachPkt()
+			r.awaitCopiers()
+		} else {
+			err = r.attachXnode()
+		}
+		if err != nil {
+			r.late = k + " attach did not complete: " + err.Error()
 		}
 		return
 	}
@@ -1052,8 +1060,11 @@ func (r *run) result() *fw.Trace {
 		// field): in production that is a nil dereference inside net.Conn - the server dies
 		ev = append(ev, fw.Event{"ev": "Crash", "fn": "typed-nil-conn"})
 	}
-	if r.harness != "" {
-		return &fw.Trace{Status: fw.DriverError, Note: r.harness, Events: ev}
+	if r.skip != "" {
+		return &fw.Trace{Status: fw.Unrealisable, Note: r.skip, Events: ev}
+	}
+	if r.late != "" {
+		return &fw.Trace{Status: fw.Inconclusive, Note: r.late, Events: ev}
 	}
 	t := &fw.Trace{Status: fw.Realised, Events: ev, Note: r.desync}
 	// a starved process makes the watchdog observations meaningless: do not judge them
